@@ -13,6 +13,7 @@ Definition label_of (t : thread local pers op result) : nat :=
   | Some (LFP2 _ _ _ _ _ _) => 34
   | Some (LFPH _ _ _ _ _ _ _) => 35
   | Some (LInsPub _ _ _ _) => 36
+  | Some (LInsSucc _ _ _ _ _) => 45
   | Some (LInsOwn _ _ _ _ _) => 37
   | Some (LInsLink _ _ _ _ _) => 39
   | Some (LInsCheck _ _ _ _ _) => 38
